@@ -10,6 +10,7 @@ import z3
 
 from parse import compile_fn, Unsupported, split_top
 from values import *
+from quick import Quick
 
 
 class FnRef:
@@ -146,17 +147,18 @@ class Stats:
         s.cut = 0
         s.infeasible = 0
         s.completed = 0
+        s.discharged_quick = 0
         s.fns = set()
 
     def merge(s, o):
         for k in ('paths', 'blocks', 'decisions', 'solver_calls', 'solver_s', 'obligations', 'discharged', 'panics',
-                  'cut', 'infeasible', 'completed'):
+                  'cut', 'infeasible', 'completed', 'discharged_quick'):
             setattr(s, k, getattr(s, k) + getattr(o, k))
         s.fns |= o.fns
 
     def as_dict(s):
         d = {k: getattr(s, k) for k in ('paths', 'blocks', 'decisions', 'solver_calls', 'obligations', 'discharged',
-                                        'panics', 'cut', 'infeasible', 'completed')}
+                                        'panics', 'cut', 'infeasible', 'completed', 'discharged_quick')}
         d['solver_s'] = round(s.solver_s, 2)
         return d
 
@@ -182,6 +184,7 @@ class Interp:
         self.max_blocks = 2_000_000
         self.native = None
         self.int_enum_limit = 64
+        self.quick = Quick(self)
         self.reset_path([])
         self.on_violation = None
         self.f2i_cache = {}
@@ -200,7 +203,10 @@ class Interp:
         self.violations = []
         self.assumed = []
         self.cp_range = {}
+        self.int_range = {}
+        self.keepalive = []
         self.inputs = None
+        self.quick.reset()
 
     def replaying(self):
         return len(self.trace) < len(self.prefix)
@@ -256,6 +262,9 @@ class Interp:
             return c
         if not is_sym(c):
             return bool(c)
+        q = self.quick.tri(c)
+        if q is not None:
+            return q
         c = z3.simplify(c)
         if z3.is_true(c):
             return True
@@ -323,11 +332,14 @@ class Interp:
         for x in exclude:
             self.add(c != x)
         self.cp_range[c.get_id()] = (lo, hi)
+        self.keepalive.append(c)
         return c
 
     def sym_int(self, name, lo=0, hi=U64):
         v = z3.Int(name)
         self.add(z3.And(v >= lo, v <= hi))
+        self.int_range[v.get_id()] = (lo, hi)
+        self.keepalive.append(v)
         return v
 
     def mir_assert(self, c, msg):
@@ -347,9 +359,14 @@ class Interp:
             if not self.replaying():
                 self._violate(clause, msg)
             raise Infeasible()
+        if self.quick.tri(cond) is True:
+            self.stats.discharged += 1
+            self.stats.discharged_quick += 1
+            return True
         cond = z3.simplify(cond)
         if z3.is_true(cond):
             self.stats.discharged += 1
+            self.stats.discharged_quick += 1
             return True
         if self.replaying():
             self.solver.add(cond)
